@@ -137,6 +137,19 @@
 (* the document is as it was (Rejects = TRUE, ApplyCall = D) -- and every   *)
 (* later call, dump and parse behaves as if the faulted call had not been   *)
 (* made (they are ordinary steps of the histories: more calls follow).      *)
+(* CALLER'S OBJECTS.  The argument of create() / a setter is a VALUE: the    *)
+(* document holds what the argument was worth WHEN THE CALL WAS MADE        *)
+(* (AcceptedPara: pats = e.pats; MkPara).  The caller of the model owns ONE  *)
+(* list object per kind of argument (pattern list, list of entries, list of  *)
+(* lines for the codec) and hands that same object to every call of every    *)
+(* history, changing it in place between the calls (grown, shrunk, items     *)
+(* replaced) -- the binding does exactly that.  A design that keeps the      *)
+(* object, or remembers the text it made for it and recognises the object    *)
+(* the next time (by identity, or by comparing with the remembered -- and     *)
+(* meanwhile changed -- object), reads state of an earlier call:             *)
+(*   ArgAliased = TRUE (the converted text of a pattern list is remembered   *)
+(*        per caller object: every Files field is written with the text of   *)
+(*        the FIRST pattern list of the history)   doc -> RoundTrip          *)
 (* Not modelled: the characters inside a payload (sampled by the harness), *)
 (* trailing white space, comments, PGP armor (spec/Deb822Reader.tla).      *)
 (***************************************************************************)
@@ -156,6 +169,7 @@ CONSTANTS Mode,            \* "codec" | "doc" | "trace"
           CommaSeparates,  \* negative control: separator look-alikes at the edge of a word are cut off
           RejectDrops,     \* negative control: a rejected assignment removes the old value
           MayAcceptedSplits, \* negative control: an accepted pattern with a white-space look-alike is split by the reader
+          ArgAliased,      \* negative control: the text made for the caller's list object is remembered per object
           RejAt,           \* doc: history lengths at which ONE rejected call is made ({}: none)
           RejThen,         \* doc: longest history that goes on after a rejected call
           RejEditAt        \* doc: document lengths whose edits include rejected calls
@@ -359,7 +373,13 @@ LoadM(m, ls) ==
         IN IF hbad \/ \E i \in 1..Len(body) : body[i].err THEN Failed("MachineReadableFormatError")
            ELSE [err |-> "none", hdr |-> LoadHeaderM(m, ps[1]), paras |-> [i \in 1..Len(body) |-> body[i].p]]
 Load(ls) == LoadM(NoMemo, ls)
-DumpM(m, h, ps) == IF StaleDump /\ m.dump # <<>> THEN m.dump ELSE DumpDoc(h, ps)
+\* negative control ArgAliased: the caller hands the SAME list object to every call that takes a pattern list
+\* (changed in place in between); the design remembers the text it made for that object the first time
+FilesArgs == [i \in 1..Len(SelectSeq(hist, LAMBDA p : p.kind = "Files")) |-> SelectSeq(hist, LAMBDA p : p.kind = "Files")[i].pats]
+ArgKept(ps) == IF ArgAliased /\ FilesArgs # <<>>
+               THEN [i \in 1..Len(ps) |-> IF ps[i].kind = "Files" THEN [ps[i] EXCEPT !.pats = FilesArgs[1]] ELSE ps[i]]
+               ELSE ps
+DumpM(m, h, ps) == IF StaleDump /\ m.dump # <<>> THEN m.dump ELSE DumpDoc(h, ArgKept(ps))
 MemoAfter(h, ps) == [dump |-> DumpDoc(h, ps),
                      lics |-> {[key |-> x.syn, lic |-> x] :
                                  x \in {ps[i].lic : i \in 1..Len(ps)} \cup {h.lic[j] : j \in 1..Len(h.lic)}}]
